@@ -14,7 +14,7 @@ open GV.Model.ValueConservation
 
 /-- certificates that exist before Conway -/
 def legacyCert : Cert → Bool
-  | .sreg | .sdereg | .sdeleg | .pret | .preg _ _ => true
+  | .sreg | .sdereg | .sdeleg | .pret | .preg _ _ | .pregRetiring _ => true
   | _ => false
 
 /-- accepted by the rules modelled here: the conservation rule and, in Conway and
@@ -255,6 +255,17 @@ theorem phase2_fields_irrelevant (t : Tx) (v : Bool) (c : List In) (r : Option O
     specConserved { t with valid := v, coll := c, collRet := r, totalColl := tc } = specConserved t :=
   ⟨rfl, rfl⟩
 
+/-- What the `pure=` field of the op checks of the Go code: validation is a function of
+    the transaction and the ledger state alone, so validating the same transaction again
+    gives the same verdicts (and cannot change what the transaction reports: the model's
+    rules return only a verdict). In the model this holds by construction; the harness
+    validates every decoded transaction twice and compares verdicts, outputs, Produced(),
+    stored bytes, mint and the state's UTxOs before and after. -/
+def validateTwice (t : Tx) : (Verdict × Bool × Bool) × (Verdict × Bool × Bool) :=
+  ((rule t, badInputs t, certDepositsBad t), (rule t, badInputs t, certDepositsBad t))
+
+theorem revalidation_same (t : Tx) : (validateTwice t).2 = (validateTwice t).1 := rfl
+
 /-! ### witnesses of the recorded findings (the code departs from the formula) -/
 
 def wCertAmount : Tx where
@@ -403,6 +414,7 @@ def namedCerts : List (String × Cert) :=
   [("StakeRegistrationCertificate", .sreg), ("StakeDeregistrationCertificate", .sdereg),
    ("StakeDelegationCertificate", .sdeleg), ("PoolRetirementCertificate", .pret),
    ("VoteDelegationCertificate", .vdeleg), ("PoolRegistrationCertificate", .preg true 1),
+   ("PoolRegistrationCertificate", .preg false 1), ("PoolRegistrationCertificate", .pregRetiring 1),
    ("RegistrationCertificate", .reg 5), ("DeregistrationCertificate", .unreg 5 7),
    ("StakeRegistrationDelegationCertificate", .srd 5), ("VoteRegistrationDelegationCertificate", .vrd 5),
    ("StakeVoteRegistrationDelegationCertificate", .svrd 5), ("RegistrationDrepCertificate", .dreg 5),
@@ -432,6 +444,25 @@ theorem cert_cases_match :
     (∀ x ∈ GV.Gen.G1Rules.vcCases_conway, x ∈ modelCases true) ∧
     (∀ x ∈ modelCases true, x ∈ GV.Gen.G1Rules.vcCases_conway) := by
   decide
+
+/-- (R) "new pool" in every rule body is: the registration returned by
+    `ls.PoolCurrentState` is nil and the pool was not seen earlier in the transaction —
+    the retirement epoch (second result) is not even bound, so a pool with a pending
+    retirement is a registered pool (`countNew` / `pregRetiring` in the model). -/
+theorem pool_deposit_guard :
+    GV.Gen.G1Rules.poolDepositGuard =
+      ["shelley", "mary", "alonzo", "babbage", "conway"].map fun e =>
+        (e, "reg,_,err", "_, seen := newPools[tmpCert.Operator]", "reg == nil && !seen") := by
+  decide
+
+/-- a registered pool — retiring or not — never pays a deposit; only a pool unknown to the
+    state does, once -/
+theorem pool_states (kd pd : Nat) (id : Nat) :
+    countNew [] [.pregRetiring id] = 0 ∧ countNew [] [.preg false id] = 0 ∧
+    countNew [] [.preg true id] = 1 ∧ countNew [] [.preg true id, .pregRetiring id, .preg true id] = 1 ∧
+    depositLegacy kd (.pregRetiring id) = 0 ∧ depositConway kd (.pregRetiring id) = 0 ∧
+    newPoolIds [.pregRetiring id, .preg false id] = [] := by
+  simp [countNew, depositLegacy, depositConway, newPoolIds]
 
 /-- certificate builders by Go type name: amount `a`, recorded deposit 7 -/
 def namedBuilders : List (String × (Nat → Cert)) :=
